@@ -283,3 +283,106 @@ def ack_timeout_handler(m: Model, r: Report, rid: str, fn: FuncInfo, ack_call: s
         ok = bool(closes) and bool(raises) and closes[0] < raises[0]
     r.check(ok, rid, f"{fn.qualname}#ack-timeout-closes", "on acknowledgement timeout the connection must be closed, then BrokenPipeError raised "
             "(a connection error the client can recover from)", loc=fn.loc)
+
+
+def bind_call(m: Model, caller: FuncInfo, call: ast.Call) -> dict[str, ast.expr] | None:
+    """Map the arguments of a call to the parameter names of the resolved callee (function, classmethod or dataclass-like
+    constructor whose fields are the class annotations).  None when the callee cannot be resolved."""
+    from sa.model import ClassInfo
+    fn = call.func
+    callee = None
+    if isinstance(fn, ast.Attribute) and isinstance(fn.value, ast.Name) and fn.value.id in ("self", "cls") and caller.cls is not None:
+        callee = m.resolve_method(caller.cls, fn.attr)
+    else:
+        callee = m.resolve_expr(caller.module, fn, caller.cls)
+    params: list[str]
+    if isinstance(callee, FuncInfo):
+        params = callee.params()
+        if callee.cls is not None and params and params[0] in ("self", "cls"):
+            params = params[1:]
+        kwonly = [a.arg for a in callee.node.args.kwonlyargs]
+    elif isinstance(callee, ClassInfo):
+        init = m.resolve_method(callee, "__init__")
+        if init is not None and init.cls is not None and init.cls.module.name.startswith("gallia"):
+            params = init.params()[1:]
+            kwonly = [a.arg for a in init.node.args.kwonlyargs]
+        else:
+            params = list(callee.class_annots)
+            kwonly = []
+    else:
+        return None
+    out: dict[str, ast.expr] = {}
+    for i, a in enumerate(call.args):
+        if isinstance(a, ast.Starred) or i >= len(params):
+            return None
+        out[params[i]] = a
+    for k in call.keywords:
+        if k.arg is None:
+            return None
+        if k.arg not in params and k.arg not in kwonly:
+            return None
+        out[k.arg] = k.value
+    return out
+
+
+def queues_unbounded(m: Model, r: Report, rid: str, conn, reader: FuncInfo) -> None:
+    """The reader task feeds its queues with `await q.put()`, and consumers re-queue skipped frames while they are the only
+    consumer: a bounded queue blocks the reader (alive checks unanswered) or deadlocks the re-queueing consumer."""
+    put_attrs = {n.func.value.attr for n in ast.walk(reader.node) if isinstance(n, ast.Call) and isinstance(n.func, ast.Attribute) and n.func.attr == "put"
+                 and isinstance(n.func.value, ast.Attribute) and ast.unparse(n.func.value.value) == "self"}
+    if not put_attrs:
+        raise AnalysisError(f"{reader.qualname}: no queue put found")
+    init = conn.methods.get("__init__")
+    if init is None:
+        raise AnalysisError(f"{conn.qualname}.__init__ not found")
+    for attr in sorted(put_attrs):
+        ctor = [n.value for n in ast.walk(init.node) if isinstance(n, (ast.Assign, ast.AnnAssign)) and n.value is not None
+                and ast.unparse(n.targets[0] if isinstance(n, ast.Assign) else n.target) == f"self.{attr}"]
+        if len(ctor) != 1 or not (isinstance(ctor[0], ast.Call) and ast.unparse(ctor[0].func).endswith("Queue")):
+            raise AnalysisError(f"{conn.qualname}: creation of self.{attr} not found")
+        c = ctor[0]
+        size = c.args[0] if c.args else next((k.value for k in c.keywords if k.arg == "maxsize"), None)
+        v = 0 if size is None else m.try_fold(init.module, size, default="?")
+        r.check(isinstance(v, int) and v <= 0, rid, f"{conn.qualname}.{attr}#unbounded",
+                f"self.{attr} is created with maxsize={ast.unparse(size) if size is not None else 0}: the reader task blocks in put() once it is full "
+                "(alive checks stay unanswered) and a consumer that re-queues skipped frames while holding the mutex deadlocks", loc=f"{init.module.relpath}:{c.lineno}")
+
+
+def match_subject_total(m: Model, r: Report, rid: str, fn: FuncInfo) -> None:
+    """A `match` with a catch-all arm in a reader function must dispatch on the raw wire value: converting it with an Enum
+    constructor first raises ValueError for every value the table does not list, so the catch-all arm is dead and the reader task ends."""
+    from sa.model import ClassInfo
+    n_m = 0
+    for mt in [n for n in walk_no_nested(fn.node) if isinstance(n, ast.Match)]:
+        if not any(isinstance(c.pattern, ast.MatchAs) and c.pattern.pattern is None for c in mt.cases):
+            continue
+        n_m += 1
+        partial = []
+        for c in ast.walk(mt.subject):
+            if isinstance(c, ast.Call):
+                t = m.resolve_expr(fn.module, c.func, fn.cls)
+                if isinstance(t, ClassInfo) and m.enum_members(t) is not None and not any("_missing_" in k.methods for k in m.mro(t)):
+                    partial.append(ast.unparse(c))
+        r.check(not partial, rid, f"{fn.qualname}#dispatch-total",
+                f"the match subject converts the wire value with {partial}: values outside the enum raise ValueError before the catch-all arm, "
+                "the reader task dies and the connection is closed instead of the frame being skipped / reported", loc=f"{fn.module.relpath}:{mt.lineno}")
+    if n_m < 1:
+        raise AnalysisError(f"{fn.qualname}: no match statement with a catch-all arm")
+
+
+def callee_param_names(m: Model, caller: FuncInfo, call: ast.Call) -> list[str]:
+    from sa.model import ClassInfo
+    fn = call.func
+    if isinstance(fn, ast.Attribute) and isinstance(fn.value, ast.Name) and fn.value.id in ("self", "cls") and caller.cls is not None:
+        callee = m.resolve_method(caller.cls, fn.attr)
+    else:
+        callee = m.resolve_expr(caller.module, fn, caller.cls)
+    if isinstance(callee, ClassInfo):
+        init = m.resolve_method(callee, "__init__")
+        if init is None or not init.module.name.startswith("gallia"):
+            return list(callee.class_annots)
+        callee = init
+    if isinstance(callee, FuncInfo):
+        a = callee.node.args
+        return [x.arg for x in a.posonlyargs + a.args + a.kwonlyargs]
+    return []
